@@ -965,7 +965,7 @@ pub fn generate(seed: u64, tier: Tier, p: &Profile) -> Scenario {
         };
         let coin = if i == 0 && pm(&mut g.r, p.whale) { coin.saturating_add((1u64 << 32) + g.r.below(1 << 34)) } else { coin };
         let addr = g.key_addr();
-        let sref = if g.r.chance(1, 25) { Some(g.r.below(g.w.scripts.len() as u64) as u16) } else { None };
+        let sref = if g.r.chance(1, if g.k.dedup_ref_inputs { 8 } else { 25 }) { Some(g.r.below(g.w.scripts.len() as u64) as u16) } else { None };
         let coin = coin + if sref.is_some() { g.min_ada(3200) } else { 0 };
         off.push(g.new_utxo(addr, coin, assets, None, sref));
     }
@@ -1013,6 +1013,19 @@ pub fn generate(seed: u64, tier: Tier, p: &Profile) -> Scenario {
         (None, 0) => {
             // explicit inputs then change only
             for u in &off {
+                if g.k.dedup_ref_inputs && g.w.utxos[*u].script_ref.is_some() && g.r.chance(1, 2) {
+                    // spent through an entry point that knows nothing about scripts, its reference script
+                    // declared by a sized listing (either order); the option drops it from the reference inputs
+                    let spend = Op::InLegacy(*u);
+                    if g.r.chance(1, 2) {
+                        ops.push(Op::RefIn(*u, true));
+                        ops.push(spend);
+                    } else {
+                        ops.push(spend);
+                        ops.push(Op::RefIn(*u, true));
+                    }
+                    continue;
+                }
                 ops.push(if g.r.chance(1, 6) { Op::InLegacy(*u) } else { Op::InUtxo(*u) });
             }
             let mut c = change.clone();
